@@ -4,8 +4,11 @@ package main
 
 import (
 	"fmt"
+	"os"
+	"path/filepath"
 	"reflect"
 	"strings"
+	"time"
 
 	"github.com/semihalev/twig"
 	"github.com/semihalev/twig/vsync"
@@ -261,6 +264,18 @@ func scenarios() []scenario {
 	}
 	cold := func(mode string) *world { return newEngine(mode, nil, false) }
 	fsCold := func(mode string) *world { return newEngine(mode, nil, true) }
+	// a template that is cached and whose file has changed (newer timestamp) before the concurrent
+	// phase starts: every serial order serves the new source to every call
+	fsChanged := func(mode string) *world {
+		p := filepath.Join(tmpDir, "r.twig")
+		t0 := time.Unix(1700000000, 0)
+		os.WriteFile(p, []byte("R-OLD{{ x }}"), 0o644)
+		os.Chtimes(p, t0, t0)
+		w := newEngine(mode, []string{"r.twig"}, true)
+		os.WriteFile(p, []byte("R-NEW{{ x }}{% if x %}!{% endif %}"), 0o644)
+		os.Chtimes(p, t0.Add(10*time.Second), t0.Add(10*time.Second))
+		return w
+	}
 	return []scenario{
 		{name: "S1 RegisterString || ParseTemplate (pooled tokenizer hand-off)", setup: cold, modes: []string{"cache-on"},
 			threads: [][]call{{reg("n1", "A:{{ x }}{% if x %}y{% endif %}"), rc("n1", 1)}, {parse("B{% for i in xs %}{{ i }}{% endfor %}", 2)}}},
@@ -282,6 +297,10 @@ func scenarios() []scenario {
 			threads: [][]call{{rc("x.twig", 1)}, {rc("y.twig", 2)}}},
 		{name: "S3b first loads of the same name through FileSystemLoader", setup: fsCold, modes: []string{"cache-on", "auto-reload"},
 			threads: [][]call{{rc("x.twig", 1)}, {rc("x.twig", 2)}}},
+		{name: "S3d Render || Render of a cached template whose file changed before both calls", setup: fsChanged, modes: []string{"auto-reload", "cache-off"},
+			threads: [][]call{{rc("r.twig", 1)}, {rc("r.twig", 2)}}, quickK: 2, thoroughK: 3},
+		{name: "S3e Render || Load || Render of a cached template whose file changed before the calls", setup: fsChanged, modes: []string{"auto-reload"},
+			threads: [][]call{{rc("r.twig", 1)}, {ld("r.twig")}, {rc("r.twig", 3)}}, quickK: 1, thoroughK: 2},
 		{name: "S3c Load || Load of uncached names (ArrayLoader)", setup: cold, modes: allModes,
 			threads: [][]call{{ld("leaf")}, {ld("plain")}}},
 		{name: "S4a one cached template, plain", setup: warmAll("plain"), modes: allModes,
